@@ -173,6 +173,9 @@ pub fn alphabet_full() -> Vec<Op> {
         Input(0, 3, 1, s("1,000.5")),
         Input(0, 1, 3, s("=1/0")),
         Input(0, 5, 4, s("=SUM(A1:A3")),
+        // two spills anchored at mirrored positions (1,2) / (2,1) whose areas cross in B2
+        Input(0, 1, 2, s("=SEQUENCE(3)")),
+        Input(0, 2, 1, s("=SEQUENCE(1,3)")),
         ArrayFormula(0, 4, 1, 1, 2, s("=SUM(A1:A2)")),
         ClearContents(0, 1, 5, 1, 1),
         ClearContents(0, 1, 3, 40, 1),
@@ -180,6 +183,9 @@ pub fn alphabet_full() -> Vec<Op> {
         ClearFormatting(0, 1, 7, 1_048_576, 1),
         ClearFormatting(0, 5, 1, 1, 16_384),
         ClearFormatting(0, 2, 1, 1, 1),
+        // a whole column strictly inside a multi-column descriptor / at the start of one (sheet 2 of the imported seed)
+        ClearFormatting(1, 1, 3, 1_048_576, 1),
+        ClearFormatting(1, 1, 6, 1_048_576, 1),
         Style(0, 1, 1, 1, 1, s("font.size_delta"), s("2")),
         Style(0, 1, 1, 2, 3, s("alignment.horizontal"), s("center")),
         Style(0, 2, 2, 1, 1, s("font.color"), s("#FF00FF")),
@@ -257,6 +263,9 @@ pub fn alphabet_full() -> Vec<Op> {
         UpdateName(s("x1"), None, s("x1"), None, s("Sheet2!$A$1")),
         // rename, re-scope and re-define at once (readers of the name are on the other sheet)
         UpdateName(s("nm"), None, s("nmy"), Some(1), s("Sheet1!$A$2")),
+        // a sheet-local name that shares its identifier with the global `nm` (created by NewName(nm, Some(1)) above)
+        UpdateName(s("nm"), Some(1), s("nm"), Some(1), s("Sheet2!$A$1")),
+        DeleteName(s("nm"), Some(1)),
         DeleteName(s("nm"), None),
         DeleteName(s("loc"), Some(1)),
         DeleteName(s("x1"), None),
